@@ -40,4 +40,10 @@ P['C09'] = dict(
     mismatch_meaning='an originated frame differs from the model proved to carry the configured identity, gapless sequence numbers and correct checksum: concrete write history',
 )
 
+P['C05'] = dict(
+    rule='bounded-exhaustive: every stream over the alphabet {FE,FD,00,01,02,FF} up to length 5 (quick) / 7 (thorough) x every segmentation into transport reads (random segmentations above length 5), plus a transport error injected at every offset of the short ones; structured streams of 1..4 valid / truncated / corrupted frames (v1, v2, signed, dialect and raw) separated by junk (sometimes containing marker bytes) read whole, in two random splits, byte by byte, and with a transport error at every byte offset; compared: the whole result sequence and the number of stream items consumed by every call. Non-trivial: model output not a bare rejection.',
+    assumptions=['the transport returns data or an error per Read call, never both, and never an empty read', 'bufio.Reader modelled by Model/Stream.v'],
+    mismatch_meaning='result sequence or per-call consumption differs from the model proved total, progressing and split-independent: concrete stream and segmentation',
+)
+
 KNOWN_MATCH = {}
